@@ -326,6 +326,9 @@ func lowerOKIt(it condIter, v ssa.Value) bool {
 	if lb, ok := guardLowerBoundIt(it, v); ok && lb >= 0 {
 		return true
 	}
+	if off >= 0 && resultNonNegative(i) {
+		return true
+	}
 	// phi whose entries are all non-negative or parameters that are
 	if phi, ok := i.(*ssa.Phi); ok && off >= 0 {
 		if lowerDepth >= 4 {
@@ -353,6 +356,60 @@ func lowerOKIt(it condIter, v ssa.Value) bool {
 }
 
 var lowerDepth int
+
+// resultNonNegative: v is max(…, c>=0), or the result of a module function
+// every return of which is non-negative where it is returned (its own guards count).
+func resultNonNegative(v ssa.Value) bool {
+	if resultDepth >= 3 {
+		return false
+	}
+	resultDepth++
+	defer func() { resultDepth-- }()
+	idx := 0
+	if ex, ok := v.(*ssa.Extract); ok {
+		v, idx = ex.Tuple, ex.Index
+	}
+	call, ok := v.(*ssa.Call)
+	if !ok {
+		return false
+	}
+	if b, isB := call.Call.Value.(*ssa.Builtin); isB {
+		switch b.Name() {
+		case "max":
+			for _, a := range call.Call.Args {
+				if lowerOK(call.Block(), a) {
+					return true
+				}
+			}
+		case "min":
+			for _, a := range call.Call.Args {
+				if !lowerOK(call.Block(), a) {
+					return false
+				}
+			}
+			return len(call.Call.Args) > 0
+		}
+		return false
+	}
+	callee := call.Call.StaticCallee()
+	if callee == nil || callee.Blocks == nil {
+		return false
+	}
+	n := 0
+	for _, b := range callee.Blocks {
+		ret, isRet := b.Instrs[len(b.Instrs)-1].(*ssa.Return)
+		if !isRet || idx >= len(ret.Results) {
+			continue
+		}
+		n++
+		if !lowerOK(b, ret.Results[idx]) {
+			return false
+		}
+	}
+	return n > 0
+}
+
+var resultDepth int
 
 // guardLowerBound: the largest k with a dominating test giving v >= k.
 func guardLowerBoundIt(it condIter, v ssa.Value) (int64, bool) {
